@@ -54,6 +54,12 @@ def _case(draw):
         if kind == "zeros" and m >= 2:
             v[rng.choice(m, size=int(rng.integers(1, m)), replace=False)] = 0.0
         pref = v.tolist()
+    pref_int = False
+    if pref is not None and draw(st.sampled_from([True, False, False, False, False])):
+        pref = [float(round(x)) for x in np.random.default_rng(draw(SEEDS)).uniform(0, 3, size=m)]
+        if not any(pref):
+            pref[0] = 1.0
+        pref_int = True  # passed as an integer tensor
     norm_eps = 10.0 ** draw(st.integers(-8, -1))
     reg_eps = 10.0 ** draw(st.integers(-10, -1))
     extra = draw(extra_cols_strategy())
@@ -75,7 +81,7 @@ def _case(draw):
     return {"agg": agg, "J": J.tolist(), "dtype": mc["dtype"], "family": mc["family"], "pref": pref,
             "norm_eps": norm_eps, "reg_eps": reg_eps, "extra_cols": extra, "xseed": xseed,
             # a quarter of the cases: the matrix arrives in a reused buffer that held another matrix at the previous call
-            "reused_buffer": draw(st.sampled_from([True, False, False, False]))}
+            "reused_buffer": draw(st.sampled_from([True, False, False, False])), "pref_int": pref_int}
 
 
 def parts(tier):
@@ -120,7 +126,9 @@ def run_case(case) -> Outcome:
         u = np.full(m, 1.0 / m)
     else:
         u = torch.tensor(case["pref"], dtype=Jt.dtype).double().numpy()
-    A = aggs.make({"name": agg, "pref": case["pref"], "norm_eps": norm_eps, "reg_eps": reg_eps}, dtype)
+    A = aggs.make({"name": agg, "pref": case["pref"], "norm_eps": norm_eps, "reg_eps": reg_eps, "pref_int": case.get("pref_int")}, dtype)
+    if case.get("pref_int"):
+        out.cls("pref:integer-tensor")
     out.cls(agg, dtype, "family:" + case["family"], "pref:" + ("default" if case["pref"] is None else "custom"))
     if abs(s - norm_eps) <= 0.05 * norm_eps:
         out.excluded = "s-within-5%-of-norm_eps"
